@@ -547,8 +547,9 @@ class Gen:
 
     def s_throw(self, d):
         if self.exc_classes and self.rng.random() < 0.5:
-            return [Throw(self.rng.choice(self.exc_classes), [Str(self.rng.choice(["e1", "e2"]))])]
-        return [Throw("异常", [Str(self.rng.choice(["boom", "bad", "出错"]))])]
+            return [Throw(self.rng.choice(self.exc_classes), [Str(self.rng.choice(["e1", "e2", "e%3"]))])]
+        # (messages are data: percent signs, braces and backslashes in them mean nothing)
+        return [Throw("异常", [Str(self.rng.choice(["boom", "bad", "出错", "100%", "进度 50% 时中断", "%d %s %v", "{} {#1}", "a\\nb", "%!"]))])]
 
     def s_fault(self, d):
         k = self.rng.random()
